@@ -836,6 +836,30 @@ Proof.
   pose proof (NoDup_interval_length hs (L + 1 - W) (N.to_nat W) Hnd Hbound). lia.
 Qed.
 
+(* deliveries whose heights never decrease (consecutive, gaps, repeats): the highest height is the last one *)
+Definition last_height (bs : list eblock) : option N :=
+  match rev bs with [] => None | b :: _ => Some (eh b) end.
+
+Fixpoint monoL (last : option N) (bs : list eblock) : Prop :=
+  match bs with
+  | [] => True
+  | b :: r => (forall l, last = Some l -> l <= eh b) /\ monoL (Some (eh b)) r
+  end.
+
+Lemma mono_fold bs : forall o, monoL o bs ->
+  fold_left hmax (map eh bs) o = match rev bs with [] => o | b :: _ => Some (eh b) end.
+Proof.
+  induction bs as [|b r IH]; intros o Hm; [reflexivity|].
+  destruct Hm as [Hm1 Hm2]. cbn [map fold_left rev].
+  assert (Hb : hmax o (eh b) = Some (eh b)).
+  { unfold hmax. destruct o as [l|]; [|reflexivity]. specialize (Hm1 l eq_refl).
+    destruct (l <? eh b) eqn:E; [reflexivity|]. f_equal. lia. }
+  rewrite Hb, (IH _ Hm2). destruct (rev r) as [|x t]; reflexivity.
+Qed.
+
+Theorem mono_top_last bs : monoL None bs -> top_height bs = last_height bs.
+Proof. intros Hm. unfold top_height, last_height. rewrite (mono_fold bs None Hm). destruct (rev bs); reflexivity. Qed.
+
 (* decidable well-formedness for the examples *)
 Fixpoint nodupNb (l : list N) : bool :=
   match l with [] => true | x :: r => negb (memN x r) && nodupNb r end.
